@@ -149,6 +149,29 @@ def run(prog, R):
             n += 1
             R.add('TRIM-2', b, 'emptiness-test#%d' % n, trimmed or cr_cmp, site(b, t.line),
                   'is_empty() on %s' % ('a trimmed line' if trimmed else 'a raw line %s a comparison with b"\\r"' % ('accompanied by' if cr_cmp else 'WITHOUT')))
+    # byte-level blank tests (`.all(|c| *c == b'\n')`) must know CR as well
+    for b in prog.bodies.values():
+        if is_derive(b) or not (b.file.endswith('fasta.rs') or b.file.endswith('fastq.rs')) or '::Reader::' not in b.key:
+            continue
+        for x, t in b.calls():
+            if t.callee and t.callee.path in ('std::iter::Iterator::all', 'std::iter::Iterator::any') and len(t.args) == 2:
+                cb = closure_of_arg(prog, b, t, 1)
+                if cb is None:
+                    continue
+                consts = set()
+                for blk in cb.blocks:
+                    for st in blk.stmts:
+                        if st.k == 'assign' and st.rv.k == 'bin' and st.rv.j['op'] in ('Eq', 'Ne'):
+                            for o in st.rv.ops:
+                                if o.const_int() is not None:
+                                    consts.add(o.const_int())
+                    tt = blk.term
+                    if tt.k == 'switch':
+                        consts |= set(v for v, _ in tt.targets if v in (10, 13))
+                if 10 in consts:
+                    n += 1
+                    R.add('TRIM-2', b, 'byte-level-blank-test#%d' % n, 13 in consts, site(b, t.line),
+                          'a test over the bytes of the buffer treats LF as blank %s CR' % ('and also' if 13 in consts else 'but NOT'))
     R.floor('TRIM-2', 2)
 
     # ---------------------------------------------------------------- SPLIT-LF
